@@ -411,7 +411,7 @@ def plan(confs, groups, tier, seed):
         extra_ids = []
         small_k = [c for c in confs if 0 < c["cfg"]["gc"]["k"] < 50]
         mid_k = [c for c in confs if 50 <= c["cfg"]["gc"]["k"] < 1000]
-        by_class = {"tiny": [c["id"] for c in small_k if c["dist"] <= 1] + [c["id"] for c in rnd.sample([c for c in small_k if c["dist"] >= 2], 30)]
+        by_class = {"tiny": [c["id"] for c in small_k if c["dist"] <= 1] + [c["id"] for c in rnd.sample([c for c in small_k if c["dist"] >= 2], 12)]
                             + [c["id"] for c in mid_k if c["dist"] <= 1],
                     "gen": [c["id"] for c in mid_k if c["dist"] <= 1 and c["cfg"]["gc"]["flag"] == "none"], "corpus": []}
     for i in extra_ids + [x for v in by_class.values() for x in v]:
